@@ -71,10 +71,16 @@ func c10Main(args []string) error {
 
 func runHistory(probe string, h history) traceOut {
 	t := traceOut{ID: h.ID, Ops: h.Ops}
-	s, err := newSession(probe, sessOpt{delays: h.Delays})
+	so := sessOpt{delays: h.Delays}
+	if h.Gate == "nested" {
+		// tmpfs mounts nested in the two tmpfs mounts Reset empties: removing the inner mount points fails
+		// (EBUSY), so one Reset meets two failures
+		so.extraTmp = []string{"w/keep", "tmp/keep"}
+	}
+	s, err := newSession(probe, so)
 	for try := 0; err != nil && try < 3; try++ { // Build's ping has a 3 s deadline: retry on a loaded machine
 		time.Sleep(time.Second)
-		s, err = newSession(probe, sessOpt{delays: h.Delays})
+		s, err = newSession(probe, so)
 	}
 	if err != nil {
 		t.Setup = err.Error()
